@@ -252,7 +252,11 @@ def chk_containment(ctx, w, sigma):
         u = us[ctx.rng.randrange(len(us))]
         occs = list(PinWords.pinword_occurrences(w, u))
         ctx.ev()
-        if bool(occs) is not PinWords.pinword_contains(w, u) or PinWords.pinword_contains_sp(w, P.factors(u)[0]) is not bool(list(PinWords.pinword_occurrences_sp(w, P.factors(u)[0]))):
+        sp_ok = True
+        if u:
+            f0 = P.factors(u)[0]
+            sp_ok = PinWords.pinword_contains_sp(w, f0) is bool(list(PinWords.pinword_occurrences_sp(w, f0)))
+        if bool(occs) is not PinWords.pinword_contains(w, u) or not sp_ok:
             report("contain", [w, list(sig)], f"pinword_occurrences / pinword_contains disagree for {u!r} in {w!r}")
 
 
@@ -279,7 +283,7 @@ def run(ctx, spec):
         ctx.note(f"exhaustive: tables and enumeration for every length <= {spec['nmax']}; every M-word of length 2..8")
     else:
         words = [w for n in range(1, spec["wmax"] + 1) for w in P.valid_words(n)]
-        sigmas = [list(p) for k in range(1, 5) for p in itertools.permutations(range(k))]
+        sigmas = [list(p) for k in range(0, 5) for p in itertools.permutations(range(k))]  # the empty permutation included
         for i, w in enumerate(words):
             if i % spec["parts"] != spec["part"]:
                 continue
